@@ -6,7 +6,8 @@ Engines (DESIGN §5 C14):
      pairs of a representative token set;
   2. Hypothesis: sequences of <=4 arbitrary (legal or illegal) tokens with arbitrary whitespace,
      non-string specs, and raw text over the language's alphabet (totality);
-  3. atheris coverage-guided target over the same decoder (thorough tier, when atheris imports).
+  3. atheris coverage-guided target (vf/fuzz_c14.py) over the same token decoder + raw text, with the legality /
+     totality / meaning oracle inside the target (8 s quick, 16 x 60 s thorough; skipped if atheris does not import).
 Oracle: token layer of vf.models.dimlang: illegal => ValueError exactly; legal => builds and its
 acceptance vector (verdict + bindings over a probe set of shapes x 3 prior contexts, inside a
 structured PyTree for '?') equals that of the canonical spelling and the reference matcher's
@@ -295,6 +296,58 @@ def run(ctx):
 
     ctx.hyp(nonstrings, max_examples=ctx.n(150, 1500))
 
+    # ---- engine 3: atheris (8 s in the quick tier, 60 s per shard in the thorough tier)
+    if not ctx.violations:
+        run_atheris(ctx, 8 if ctx.tier == "quick" else 60)
+
+
+def run_atheris(ctx, seconds):
+    """Engine 3: coverage-guided fuzzing of the same decoder/oracle in a subprocess (vf/fuzz_c14.py)."""
+    import json
+    import os
+    import shutil
+    import subprocess
+    import sys
+
+    from vf.core import VERIF, WORK
+
+    deps = os.path.join(VERIF, ".deps")
+    env = dict(os.environ)
+    env["PYTHONPATH"] = env.get("PYTHONPATH", "") + os.pathsep + deps
+    probe = subprocess.run([sys.executable, "-c", "import atheris"], env=env, capture_output=True)
+    if probe.returncode != 0:
+        ctx.extra["atheris"] = "not importable (run ./setup.sh); engine 3 skipped"
+        return
+    corpus = os.path.join(WORK, f"c14-fuzz-{os.getpid()}-{ctx.shard}")
+    shutil.rmtree(corpus, ignore_errors=True)
+    os.makedirs(corpus, exist_ok=True)
+    try:
+        r = subprocess.run([sys.executable, "-W", "ignore", "-m", "vf.fuzz_c14", corpus, f"-max_total_time={seconds}", f"-seed={ctx.hyp_seed + 1}",
+                            "-print_final_stats=0", f"-artifact_prefix={corpus}/"],
+                           env=env, cwd=VERIF, capture_output=True, text=True, timeout=seconds * 4 + 120)
+        out = r.stdout + r.stderr
+        stats = {}
+        try:
+            stats = json.load(open(os.path.join(corpus, "stats.json")))
+        except Exception:
+            pass
+        ctx.evaluations += int(stats.get("executions", 0))
+        for k, v in stats.items():
+            ctx.extra[f"fuzz_{k}"] = ctx.extra.get(f"fuzz_{k}", 0) + v
+        ctx.extra["fuzz_corpus_files"] = ctx.extra.get("fuzz_corpus_files", 0) + len(os.listdir(corpus))
+        for line in out.splitlines():
+            if line.startswith("VF-VIOLATION "):
+                v = json.loads(line[len("VF-VIOLATION "):])
+                ctx.record(Violation("fuzz-" + v["clause"], {"raw": v["spec"]}, "[atheris] " + v["message"]))
+                break
+        else:
+            if r.returncode != 0 and "Done " not in out:
+                from vf.core import HarnessError
+
+                raise HarnessError(f"atheris target failed: {out[-800:]}")
+    finally:
+        shutil.rmtree(corpus, ignore_errors=True)
+
 
 def coverage_extra(cov):
     return {"exhaustive_token_layer": True}
@@ -308,6 +361,8 @@ def replay(case, clause, ctx):
                 return f"{case['raw']!r}: {res}"
             if clause == "illegal-accepted" and kind == "ok":
                 return f"{case['raw']!r} accepted"
+            if clause and clause.startswith("fuzz-"):
+                return None  # re-derived by the fuzz run; raw build already checked above for totality
             if clause == "legal-rejected" and kind != "ok":
                 return f"{case['raw']!r} rejected: {res}"
             return None
